@@ -96,8 +96,11 @@ def gen_case(rng, tier):
             ops.append("rspall %s" % spec(rng, tcp_ok))
             ops.append("proc")
         elif r < 0.78:
-            ops.append("rsp %s rcode=SERVFAIL" % rng.choice(["xl", "xl-1"]))
-            ops.append("fail recvfrom 1 ECONNREFUSED")
+            # read error, possibly after some datagrams were already read in the same call
+            k = rng.choice([1, 1, 2, 3])
+            for _ in range(k):
+                ops.append("rsp %s %s" % (rng.choice(["xl", "xl-1"]), spec(rng, tcp_ok) if k > 1 else "rcode=SERVFAIL"))
+            ops.append("fail recvfrom %d ECONNREFUSED" % rng.choice([1, 1, k, k + 1]))
             ops.append("proc")
         elif r < 0.88 and not tcp_ok:
             if cur > 0 and rng.random() < 0.5:
@@ -116,5 +119,49 @@ def gen_case(rng, tier):
     return cfg + "|" + ";".join(ops)
 
 
+def window(pool, start, k):
+    return ",".join("10.0.0.%d:53" % pool[(start + i) % len(pool)] for i in range(k))
+
+
+def gen_flap(rng, tier):
+    """the server list keeps changing under queries in flight, faster than the timeout: every
+    change drops exactly one server (and adds one), more than servers*tries times.  Each
+    removal of the server a query waits on must count against its budget."""
+    k = rng.choice([1, 1, 1, 2, 2, 3])
+    T = rng.choice([1, 1, 2, 2, 3, 4])
+    M = rng.choice([50, 100, 250])
+    pool = list(range(1, k + rng.choice([1, 1, 2, 3]) + 1))       # k+1 .. k+3 addresses
+    cfg = "servers=%d tries=%d timeout=%d maxtimeout=%d idseq=%d qcachettl=0 seed=%d" % (
+        k, T, rng.choice([250, 500, 2000]), M, rng.choice([1, 100, 65530]), rng.randint(1, 10 ** 6))
+    if rng.random() < 0.3:
+        cfg += " flags=stayopen"
+    if rng.random() < 0.3:
+        cfg += " rotate=1"
+    ops = []
+    nq = rng.choice([1, 1, 2, 3])
+    for i in range(nq):
+        ops.append("send %d q%d.example IN A rd%s" % (i, i, " edns" if rng.random() < 0.7 else ""))
+    pos = 0
+    nflaps = k * T + 6 + rng.choice([0, 1, 3, 8, 20])
+    for _ in range(nflaps):
+        pos += 1
+        ops.append("setservers %s" % window(pool, pos, k))
+        r = rng.random()
+        if r < 0.25:
+            ops.append("adv %d" % rng.choice([1, M // 2, M - 1]))
+            ops.append("proc")
+        elif r < 0.35:
+            ops.append("rsp xl %s" % spec(rng))
+            ops.append("proc")
+        elif r < 0.4 and nq < 6:
+            ops.append("send %d q%d.example IN A rd" % (nq, nq))
+            nq += 1
+    for _ in range(k * T + 4):
+        ops.append("adv %d" % M)
+        ops.append("proc")
+    ops.append("qlen")
+    return cfg + "|" + ";".join(ops)
+
+
 def gen(rng, tier, n):
-    return [gen_case(rng, tier) for _ in range(n)]
+    return [gen_flap(rng, tier) if rng.random() < 0.12 else gen_case(rng, tier) for _ in range(n)]
